@@ -162,6 +162,12 @@ pub fn family(tier: Tier) -> Vec<R> {
         out.push(R::node(Tag::SetExt, vec![R::pair(Tag::Sim, x.clone(), y.clone()), a.clone()]));
         out.push(R::node(Tag::SetExt, vec![a.clone(), R::pair(Tag::Sim, y.clone(), x.clone())]));
     }
+    // hash twins as siblings (every ordered pair, every unordered constructor and symmetric statement)
+    {
+        let mut tags = set_tags.clone();
+        tags.extend(sym_tags);
+        out.extend(u::hash_twin_family(&tags));
+    }
     // the same set reached through differently GROWN tables: n distinct elements, then a duplicate
     // inserted exactly when the table is full (hashbrown reserves before it looks the key up), for
     // the growth steps 3 -> 7 -> 14 -> 28; flat and as an element of another unordered compound
